@@ -90,6 +90,14 @@ def replay(args):
                     obj.add(val, name=o["name"])
                 else:
                     obj.add(val)
+            elif o["op"] == "readd":
+                cur = obj.get(o["name"])
+                if cur is None:
+                    raise LookupError("unbound")
+                if o["mode"] == "set":
+                    setattr(obj, o["name"], cur)
+                else:
+                    obj.add(cur)
             elif o["op"] == "get":
                 r = obj.get(o["name"])
                 ev["result"] = ids.get(id(r), -3) if r is not None else -1
@@ -235,7 +243,7 @@ def run(tier, seed, replay_file=None):
         for ev in tr:
             k = ev["op"] + ("_raised" if ev["raised"] else "")
             o.cover[k] = o.cover.get(k, 0) + 1
-    o.required_cover = ["setattr", "add", "get", "del_raised", "subclass_raised", "elab", "export", "classdef", "setattr_raised", "add_raised"]
+    o.required_cover = ["readd", "setattr", "add", "get", "del_raised", "subclass_raised", "elab", "export", "classdef", "setattr_raised", "add_raised"]
     rnd = random.Random(seed)
     for i in rnd.sample(range(len(traces)), min(3, len(traces))):
         o.samples.append({"events": [{k: v for k, v in ev.items() if k in ("op", "name", "kind", "mode", "raised", "ns", "views")} for ev in traces[i]],
